@@ -24,7 +24,7 @@ ASSUMPTIONS = ["torch's generator is uniform on [0,1) (the seam replaces it by a
                "reference measure shares by midpoint quadrature of tpmc/ref/geom.py membership",
                "thresholds on the total-variation distance are calibrated on known-correct laws with a factor >= 2 margin and stated in BOUNDS"]
 BOUNDS = {"quick": {"net": 4096, "tv_uniform": 0.05, "tv_boundary": 0.06, "tv_grid": 0.2, "tv_gauss": 0.06, "lhs_n": [1, 2, 3, 4]},
-          "thorough": {"net": 16384, "tv_uniform": 0.04, "tv_boundary": 0.05, "tv_grid": 0.2, "tv_gauss": 0.05, "lhs_n": [1, 2, 3, 4]}}
+          "thorough": {"net": 8192, "tv_uniform": 0.04, "tv_boundary": 0.05, "tv_grid": 0.2, "tv_gauss": 0.05, "lhs_n": [1, 2, 3, 4]}}
 ITEM_LIMIT = {"quick": 600, "thorough": 3600}
 
 
@@ -146,6 +146,10 @@ def run_item(item):
     for th in thetas:
         prm1 = Bd.params_points({v: [x] for v, x in th.items()}) if th else Points.empty()
         rbox = G.ref_box(a, vals_of_theta(th, 1))[0]
+        # partition box: slightly and asymmetrically inflated by irrational-ish factors, so that axis-parallel
+        # edges of the shapes never coincide with cell borders (float32 rounding would flip the cell there)
+        _ext = rbox[:, 1] - rbox[:, 0]
+        pbox = np.stack([rbox[:, 0] - 0.0137 * _ext, rbox[:, 1] + 0.0291 * _ext], 1)
         st = "%s|%s" % (name, sorted(th.items()))
         res["states"].append(st)
 
@@ -168,7 +172,7 @@ def run_item(item):
                 # the exact length of the Boolean boundary is supplied through set_volume(): the estimate
                 # |dA|+|dB| no longer enters, and the sampler is expected to be uniform in arclength
                 m0 = {1: 8, 2: 4}.get(D, 3)
-                sh0 = boundary_shares(a["a"], th, rbox, m0)
+                sh0 = boundary_shares(a["a"], th, pbox, m0)
                 true_len = boundary_shares.total
 
                 def mk():
@@ -187,24 +191,26 @@ def run_item(item):
             res["evals"] += len(pts)
             m = {1: 8, 2: 4}.get(D, 3)       # coarse cells: sampling noise of an iid sample would be ~0.025
             if G.is_solid(a):
-                shares = solid_shares(a, th, rbox, m, sub=24 if D <= 2 else 14)
+                shares = solid_shares(a, th, pbox, m, sub=24 if D <= 2 else 14)
                 thr = bnd["tv_uniform"]
                 kind = "solid"
             elif a["k"] == "boundary" and not G.has_kind_prod(a):
-                shares = boundary_shares(a["a"], th, rbox, m)
+                shares = boundary_shares(a["a"], th, pbox, m)
                 thr = 0.02 if item.get("exactlen") else bnd["tv_boundary"]     # exact-length sampling is uniform to ~0.002
                 kind = "boundary"
             else:
                 continue
             if (shares > 0).sum() < 2:
                 continue
-            d, emp = tv(pts, rbox, m, shares)
+            # never below 1.5 x the sampling noise an iid sample of this size would show on this many cells
+            thr = max(thr, 0.6 * math.sqrt(float((shares > 0).sum()) / len(pts)))
+            d, emp = tv(pts, pbox, m, shares)
             tvs.append(round(d, 4))
             res.setdefault("tvlist", []).append((round(d, 4), name, str(th)))
             if d > thr:
                 worst = int(np.argmax(np.abs(emp - shares)))
                 sig = _law_sig(a) + ("-exact-length" if item.get("exactlen") else "")
-                key = "C11|nonuniform|%s" % sig if sig in ("boolean-boundary", "overlapping-union", "concave-polygon", "boolean-boundary-exact-length") else "C11|nonuniform|%s|%s" % (kind, sig)
+                key = "C11|nonuniform|%s" % sig if sig in FAMILIES else "C11|nonuniform|%s|%s" % (kind, sig)
                 if d > SEVERE:
                     key += "|severe"
                 viol(key, "random-uniform sampling at %s: total-variation distance %.3f between the cell fractions of the pushed-forward "
@@ -224,8 +230,8 @@ def run_item(item):
                 pts = np.concatenate([Bd.to_vals(S)[v] for v in order], 1)
                 res["evals"] += len(pts)
                 m = 4 if D <= 2 else 2
-                shares = solid_shares(a, th, rbox, m, sub=24 if D <= 2 else 16)
-                d, emp = tv(pts, rbox, m, shares)
+                shares = solid_shares(a, th, pbox, m, sub=24 if D <= 2 else 16)
+                d, emp = tv(pts, pbox, m, shares)
                 tvs.append(round(d, 4))
                 res.setdefault("tvlist", []).append((round(d, 4), name + "|n=%d" % n, str(th)))
                 if d > bnd["tv_grid"]:
@@ -249,8 +255,8 @@ def run_item(item):
 
             def w(grid, ctr=ctr, std=std):
                 return np.exp(-0.5 * (((grid - ctr) / std) ** 2).sum(1))
-            shares = solid_shares(a, th, rbox, m, sub=16 if D <= 2 else 12, weight=w)
-            d, emp = tv(pts, rbox, m, shares)
+            shares = solid_shares(a, th, pbox, m, sub=16 if D <= 2 else 12, weight=w)
+            d, emp = tv(pts, pbox, m, shares)
             tvs.append(round(d, 4))
             res.setdefault("tvlist", []).append((round(d, 4), name, str(th)))
             if d > bnd["tv_gauss"]:
@@ -344,6 +350,30 @@ def _overlapping_union(a):
     return any(_overlapping_union(v) for v in a.values() if isinstance(v, dict))
 
 
+def _closed_form(a):
+    """does the library know the exact measure of this expression (mirrors the statement of C10, no evaluation)"""
+    k = a["k"]
+    if k in G.PRIMS:
+        return True
+    if k == "union":
+        return a["disjoint"] and _closed_form(a["a"]) and _closed_form(a["b"])
+    if k == "cut":
+        return a["contained"] and _closed_form(a["a"]) and _closed_form(a["b"])
+    if k == "inter":
+        return False
+    if k == "prod":
+        return _closed_form(a["a"]) and _closed_form(a["b"])
+    return _closed_form(a["a"])
+
+
+def _estimated_union(a):
+    """a union (anywhere) one of whose operands has no exact volume (intersection, non-contained cut, overlapping union):
+    the library then samples with its documented volume ESTIMATE unless set_volume() is used"""
+    if a["k"] == "union" and not (_closed_form(a["a"]) and _closed_form(a["b"])):
+        return True
+    return any(_estimated_union(v) for v in a.values() if isinstance(v, dict))
+
+
 def _law_sig(a):
     """family of the sampling algorithm behind an expression (known-biased families get one key each)"""
     k = a["k"]
@@ -354,6 +384,8 @@ def _law_sig(a):
         if inner["k"] in ("union", "cut", "inter"):
             return "boolean-boundary"
         return "boundary/" + _law_sig(a["a"])
+    if _estimated_union(a):
+        return "union-of-estimated-volumes"
     if _overlapping_union(a):
         return "overlapping-union"
     if has_kind(a, ("poly",)):
@@ -361,7 +393,8 @@ def _law_sig(a):
     return "%s/%s" % (top_sig(a), "+".join(sorted(leaf_flavors(a))))
 
 
-SEVERE = 0.3     # a known-biased family deviating more than this is reported under a separate key
+FAMILIES = ("boolean-boundary", "overlapping-union", "concave-polygon", "boolean-boundary-exact-length", "union-of-estimated-volumes")
+SEVERE = 0.6     # a known-biased family deviating more than this (grossly broken, not merely biased) gets its own key
 
 
 def finish(results, tier):
